@@ -464,7 +464,7 @@ class PropertyCheck:
         return []
 
     def build_impl(self):
-        return build_impl(self.id.lower() + '-' + getattr(self, 'tier', 'quick'), os.path.join(VERIF, 'harness', self.harness), **self.impl_kwargs)
+        return build_impl(getattr(self, 'runkey', self.id.lower()), os.path.join(VERIF, 'harness', self.harness), **self.impl_kwargs)
 
 
 def compare(chk, cases, mouts, iouts):
@@ -517,7 +517,9 @@ def write_replay(prop, name, payload):
 def run_pair(chk, model_exe, impl_exe, cases, tag):
     work = os.path.join(BUILD, 'work', chk.id.lower())
     os.makedirs(work, exist_ok=True)
-    path = os.path.join(work, 'cases-%s.txt' % tag)
+    # per-process file: concurrent runs of one property (quick and thorough, or two trees) must not share it
+    path = os.path.join(work, 'cases-%s-%d.txt' % (tag, os.getpid()))
+    chk.last_cases_path = path
     with open(path, 'w') as f:
         for c in cases:
             f.write(c + '\n')
@@ -543,6 +545,7 @@ def run_check(chk, argv):
             replay = args.pop(0)
     tier = os.environ.get('VERIF_TIER', tier) if not argv else tier
     chk.tier = tier
+    chk.runkey = '%s-%s-%d' % (chk.id.lower(), tier, os.getpid())
     seed = int(os.environ.get('VERIF_SEED', '20260930'))
     rng = random.Random(seed * 1000003 + int(chk.id[1:]))
     os.makedirs(os.path.join(VERIF, 'evidence'), exist_ok=True)
@@ -569,6 +572,13 @@ def run_check(chk, argv):
         for (p, suffix) in violations:
             print('VIOLATION property=%s replay=%s%s' % (chk.id, p, (' ' + suffix) if suffix else ''))
         sys.stdout.flush()
+        # per-run scratch (implementation build, case files) is removed; replay files stay
+        shutil.rmtree(os.path.join(BUILD, 'impl', chk.runkey), ignore_errors=True)
+        for f in glob.glob(os.path.join(BUILD, 'work', chk.id.lower(), 'cases-*-%d.txt' % os.getpid())):
+            try:
+                os.remove(f)
+            except OSError:
+                pass
         return 1 if violations else 0
 
     # ---- 1/2: proof step -------------------------------------------------------------
